@@ -250,3 +250,28 @@ Definition id_classes (ids : list nat) : list nat := map (fun o => first_pos o i
 Definition hp_size (nside : nat) : nat := 12 * nside * nside.
 Definition hp_dvol (pi : Qc) (nside : nat) : Qc := (pi / (qn 3 * qn nside * qn nside))%Qc.
 Definition hp_total (pi : Qc) (nside : nat) : Qc := (qn (hp_size nside) * hp_dvol pi nside)%Qc.
+
+(* ============================================================================================== *)
+(* PowerSpace._powerIndexCache: a memo table in front of a pure computation                         *)
+(* ============================================================================================== *)
+(*  key = (harmonic_partner, binbounds)
+    if self._powerIndexCache.get(key) is None:  ... compute ...;  self._powerIndexCache[key] = (...)
+    (...) = self._powerIndexCache[key]                                                                *)
+Section Memo.
+Variables (K V : Type) (f : K -> V) (keqb : K -> K -> bool).
+Fixpoint mlookup (t : list (K * V)) (k : K) : option V :=
+  match t with
+  | [] => None
+  | (k', v) :: r => if keqb k k' then Some v else mlookup r k
+  end.
+Definition mget (t : list (K * V)) (k : K) : list (K * V) * V :=
+  match mlookup t k with
+  | Some v => (t, v)
+  | None => ((k, f k) :: t, f k)
+  end.
+Fixpoint mrun (ks : list K) (t : list (K * V)) : list V :=
+  match ks with
+  | [] => []
+  | k :: r => let (t', v) := mget t k in v :: mrun r t'
+  end.
+End Memo.
